@@ -39,7 +39,13 @@ def _paths(tag):
     d = os.path.join(core.scratch_dir(), "c11-%d-%s" % (os.getpid(), tag))
     shutil.rmtree(d, ignore_errors=True)
     os.makedirs(d)
-    return d, os.path.join(d, "store.sqlite"), os.path.join(d, "ret.log")
+    # the store lives where the user puts it: file and directory names with blanks and with the characters that mean something in
+    # URIs, globs and SQL ('#', '%41', '?', '&', "'", brackets) are ordinary names on this file system
+    names = ["store.sqlite", "store.sqlite", "run#3.sqlite", "yield%95 [a]+.sqlite", "q?mode=ro&x=1.sqlite", "it's.db", "exp #2/data.sqlite"]
+    name = names[sum(tag.encode()) % len(names)]
+    if "/" in name:
+        os.makedirs(os.path.join(d, os.path.dirname(name)))
+    return d, os.path.join(d, name), os.path.join(d, "ret.log")
 
 
 def fork_writer(kind, path, retlog, kill_at=None, count_file=None, ready_fd=None, fsize_extra=None):
